@@ -307,12 +307,36 @@ def rule_role_mapping(ctx):
                    "; ".join(problems[:2]), fn.loc())
         except AnalysisError as e:
             raise AnalysisError(f"[C12.3-role-mapping] {fname} outside the modelled subset: {e}")
-    # __init__: attribute X from parameter X
+    # __init__: attribute X from parameter X -- evaluated (sa.core.tiny) with a distinct value per parameter (and 0 = "not negotiated" for the windows)
     init = pm.methods["__init__"]
-    for p in ("server_no_context_takeover", "client_no_context_takeover", "server_max_window_bits", "client_max_window_bits"):
-        st = [s for s in walk_no_defs(init.node) if isinstance(s, ast.Assign) and is_self_attr(s.targets[0], p)]
-        ok = len(st) == 1 and (norm.text(st[0].value) == p or (isinstance(st[0].value, ast.IfExp) and norm.text(st[0].value.body) == p and p in norm.text(st[0].value.test)))
-        ctx.ob(f"PerMessageDeflate.__init__: self.{p} from parameter {p}", ok, "attribute fed from another parameter", init.loc())
+    ctx.analysed(init)
+    from ..core.tiny import Tiny, Sym
+    try:
+        dflt = ctx.program.class_const(pm, "DEFAULT_WINDOW_BITS")
+    except KeyError:
+        dflt = None
+    names = init.params()[1:]
+    for zero in (False, True):
+        vals = {"server_no_context_takeover": Sym("snct"), "client_no_context_takeover": Sym("cnct"), "server_max_window_bits": 0 if zero else 12,
+                "client_max_window_bits": 0 if zero else 10}
+        env = {"self": Sym("pmd"), "self.DEFAULT_WINDOW_BITS": dflt, "self.DEFAULT_MEM_LEVEL": 8}
+        for n_ in names:
+            env[n_] = vals.get(n_, Sym(n_))
+        for a_, d_ in zip(reversed(init.node.args.args), reversed(init.node.args.defaults)):
+            if a_.arg not in vals and isinstance(d_, ast.Constant):
+                env[a_.arg] = d_.value
+        try:
+            t = Tiny(env, default_call=lambda f_, a_, k_=None: Sym(f"<{f_}>"), opaque_globals=True)
+            t.run([x for x in init.node.body if not (isinstance(x, ast.Expr) and isinstance(x.value, ast.Constant))])
+        except AnalysisError as e:
+            raise AnalysisError(f"[C12.3-role-mapping] PerMessageDeflate.__init__ outside the modelled subset: {e}")
+        for p in ("server_no_context_takeover", "client_no_context_takeover", "server_max_window_bits", "client_max_window_bits"):
+            got = t.env.get(f"self.{p}", t.env["self"].attrs.get(p))
+            want = vals[p] if not (zero and p.endswith("window_bits")) else dflt
+            if zero and not p.endswith("window_bits"):
+                continue
+            ctx.ob(f"PerMessageDeflate.__init__: self.{p} from parameter {p}" + (" (0 = not negotiated -> the default window)" if zero else ""), got is want or got == want,
+                   f"attribute holds {got!r}, expected {want!r}: fed from another parameter", init.loc())
     params = init.params()[1:]
     expect = {
         "create_from_offer_accept": {"server_no_context_takeover": {"accept.no_context_takeover", "accept.offer.request_no_context_takeover"},
@@ -423,6 +447,24 @@ def rule_tail(ctx):
     ctx.ob("sender strips exactly the octets the receiver re-appends", n_strip is not None and lit is not None and n_strip == len(lit),
            f"stripped {n_strip} octets, re-appended {lit!r}", ec.loc())
     ctx.ob("re-appended tail is the empty stored block 00 00 ff ff", lit == b"\x00\x00\xff\xff", f"tail {lit!r}", ed.loc())
+    # ... and the flush that emits NOTHING (no octet was fed to the compressor since its last sync flush: an empty message sent without any frame, behind
+    # another message, with context takeover): the payload plus the re-appended tail must still be a valid empty block, i.e. the payload is 0x00
+    try:
+        comp0 = Sym("compressor", methods={"flush": lambda *a_: b"", "compress": lambda d_: d_})
+        r0 = Tiny({"self": Sym("pmce"), "self._compressor": comp0}, default_call=lambda f_, a_, k_=None: Sym(f"<{f_}>"), model_strings=True, opaque_globals=True).run(
+            [x for x in ec.node.body if not (isinstance(x, ast.Expr) and isinstance(x.value, ast.Constant))])
+        got0 = _to_py(r0[1]) if r0[0] == "return" else r0
+    except AnalysisError as e:
+        raise AnalysisError(f"[C12.5-sync-flush-tail] end_compress_message outside the modelled subset: {e}")
+    import zlib as _z
+
+    def inflates_empty(p_):
+        try:
+            return isinstance(p_, bytes) and lit is not None and _z.decompressobj(-15).decompress(p_ + lit) == b""
+        except _z.error:
+            return False
+    ctx.ob("an empty message whose flush emits nothing still carries a valid empty deflate block (payload + re-appended tail inflates to nothing) [1 cell]", inflates_empty(got0),
+           f"payload {got0!r} followed by {lit!r} is not a deflate stream: the receiver's inflater fails on this or on the next message", ec.loc())
     cd = pm.methods["compress_message_data"]
     ctx.ob("compress_message_data feeds the running compressor", any(norm.text(c.func) == "self._compressor.compress" and [norm.text(a) for a in c.args] == ["data"] for c in calls_in(cd.node)), "changed", cd.loc())
 
